@@ -817,7 +817,8 @@ class Extractor:
                        "kw_ticks": {k: (v.tick if v.tick is not None else s2.tok_ticks.get(getattr(v, "tid", None))) for k, (v, _c, _n) in kw.items()},
                        "kw_none": {k: isinstance(v, ConstV) and (v.value is None or v.value == []) or (isinstance(v, ListV) and v.state == "empty" and v.tick is None)
                                    for k, (v, _c, _n) in kw.items()},
-                       "first_atoms": s2.toks.get(s2.first) if s2.first else None}
+                       "first_atoms": s2.toks.get(s2.first) if s2.first else None,
+                       "source_text": next((ast.unparse(k.value) for k in e.keywords if k.arg == "source"), None)}
                 self.aut.calls.append(rec)
                 out.append((s2, n2, NodeV(f.attr, rec)))
             return out
